@@ -26,6 +26,7 @@ EXPLANATION = (
     "is None}; every remover obtained while subscribing is retained by the returned unsubscribe function, which calls each "
     "and cancels a pending start task; other subscribe_* return the remover of their own registration. Arrival-order "
     "behaviour over all streams is not decided."
+    ' Added: the unsubscribe function of the voice assistant is located by role and sees the pending start task at call time.'
 )
 ASSUMPTIONS = ["C12 (each message is delivered once to each registered handler)", "C14.R2 (table entries map a message to the model of its type)"]
 
